@@ -309,6 +309,7 @@ class Tally:
         self.ctx = ctx
         self.counts = collections.Counter()
         self.known_hits = collections.defaultdict(list)   # deviation -> sample observations
+        self.known_sets = collections.defaultdict(list)   # sorted deviation tuple -> sample observations
         self.violations = []
         self.safe = []
         self.samples = []
@@ -324,6 +325,8 @@ class Tally:
         elif cls == "known":
             key = ",".join(sorted(dev or []))
             self.counts["known:" + key] += 1
+            if len(self.known_sets[tuple(sorted(dev or []))]) < 3:
+                self.known_sets[tuple(sorted(dev or []))].append(item)
             for d in dev or []:
                 if len(self.known_hits[d]) < 3:
                     self.known_hits[d].append(item)
@@ -353,12 +356,12 @@ def finish(ctx, tally, level_text_extra=None, samples=None, traces=0, assumption
     for k in known:
         for d in (k.get("deviations") or [k.get("deviation")]):
             listed.add(d)
-    for d in tally.known_hits:
-        if d not in listed:
-            # explained by a model deviation that is not a listed finding: this is a violation
-            for item in tally.known_hits[d]:
-                tally.violations.append({"unlisted_deviation": d, "item": item})
-            tally.counts["violation"] += len(tally.known_hits[d])
+    for key, items in tally.known_sets.items():
+        if not (set(key) & listed):
+            # explained only by deviations that are not listed findings of this property: a violation
+            for item in items:
+                tally.violations.append({"unlisted_deviations": list(key), "item": item})
+            tally.counts["violation"] += tally.counts.pop("known:" + ",".join(key), 0)
     if tally.safe:
         print("NOTE: %d observation(s) differ from the model but satisfy the property (model divergence, no alarm); first: %s"
               % (tally.counts["divergent-safe"], json.dumps(tally.safe[0])[:400]), flush=True)
